@@ -77,7 +77,8 @@ Space == B - (r.bp + Filtered + Unfiltered)
 RCall(n) ==      \* Read::read(buf) with buf.len() = n
   /\ Mode = "reader" /\ r.pc = "idle"
   /\ r' = IF n = 0 THEN [r EXCEPT !.last = 0]                       \* empty-buffer guard: nothing changes
-          ELSE [r EXCEPT !.pc = "copy", !.want = n, !.got = 0, !.last = -1]
+          ELSE [r EXCEPT !.pc = "copy", !.want = IF n > len THEN len + 1 ELSE n,   \* more than the stream holds: all "big"
+                         !.got = 0, !.last = -1]
   /\ UNCHANGED <<len, heads, w, d>>
 
 RCopy ==         \* copy filtered bytes out, compact when the buffer end is reached, return or go on
@@ -87,7 +88,7 @@ RCopy ==         \* copy filtered bytes out, compact when the buffer end is reac
          bp2 == IF bp1 + (Filtered - c) + Unfiltered = B THEN 0 ELSE bp1
          r1 == [r EXCEPT !.outn = @ + c, !.bp = bp2, !.want = @ - c, !.got = @ + c]
      IN r' = IF r1.want = 0 \/ r1.eof
-               THEN [r1 EXCEPT !.pc = "idle", !.last = r1.got, !.end = (r1.got = 0)]
+               THEN [r1 EXCEPT !.pc = "idle", !.last = r1.got, !.end = (r1.got = 0), !.want = 0, !.got = 0]
                ELSE [r1 EXCEPT !.pc = "fill"]
   /\ UNCHANGED <<len, heads, w, d>>
 
